@@ -121,6 +121,22 @@ def gen_path_cases(tier, seed):
         s.timeout()
         s.add("stop")
         cases.append(("l%d" % i, s.text(), {"compare": False}))
+    # a queue link replaced by one with a longer target between the moment its size is taken (fstatat) and the moment it
+    # is read (readlinkat): whatever size was seen first, the read stays inside its buffer (implementation only)
+    for j, (k, extra) in enumerate([(1, 0), (1, 1), (1, 7), (1, 30), (1, 200), (1, 2000), (3, 1), (3, 64)]):
+        s = wc.Script(log=False)
+        wc.setup_world(s, wc.base_cfg(deb=0))
+        s.put(WATCH + "/inc/a.txt", "x")
+        s.put(WATCH + "/n", "y")
+        s.start()
+        s.exec(3, X + "/vim")
+        s.write(3, WATCH + "/inc/a.txt")
+        s.write(3, WATCH + "/n")
+        s.add("oracle relink %d %d" % (k, extra))
+        s.timeout()
+        s.timeout()
+        s.add("stop")
+        cases.append(("lr%d" % j, s.text(), {"compare": False}))
     # the DESTINATION of the version (store root / relative path / version) exactly at the platform's path limit, and one
     # and two bytes to either side: 4096 bytes is the longest path the kernel takes
     store_len = len(R + "/k/store")
@@ -235,11 +251,11 @@ def main(rep):
                     a, b = wc.comparable(il), wc.comparable(model.get(cid))
                     if a != b:
                         first = next((i for i, (x, y) in enumerate(zip(a, b)) if x != y), min(len(a), len(b)))
-                        rep.violation("correspondence", {"case": cid, "script": script.split("\n"), "implementation": a, "model": b,
-                                                         "first_difference": {"implementation": a[first:first + 3], "model": b[first:first + 3]},
-                                                         "what": "implementation and model differ on a hostile input (processed-or-rejected outcome)"}, found_input=False)
-                        found = True
-                        break
+                        # (deferred: the sanitizers still judge every other group; a concrete failing input wins)
+                        rep.defer_divergence({"case": cid, "script": script.split("\n"), "implementation": a, "model": b,
+                                              "first_difference": {"implementation": a[first:first + 3], "model": b[first:first + 3]},
+                                              "what": "implementation and model differ on a hostile input (processed-or-rejected outcome)"})
+                        continue
                 validated += 1
         # argv under the sanitizers
         argv = []
